@@ -148,6 +148,32 @@ func init() {
 		rec(append([]byte{}, args[2]...), n)
 		return args, out
 	})
+	// jsonNestingExceeds(t, maxJSONDepth) and jsonNestingExceeds(t, limit)
+	RegisterImpl("C01.accepts", func(args [][]byte) ([][]byte, []byte) {
+		if _, err := gmsl.CanonicalJSON(args[0]); err != nil {
+			return args, B("err")
+		}
+		return args, B("ok")
+	})
+	RegisterImpl("C01.enforced_accepts", func(args [][]byte) ([][]byte, []byte) {
+		if _, err := gmsl.EnforcedCanonicalJSON(args[0], gmsl.RoomVersion(args[1])); err != nil {
+			return args, B("err")
+		}
+		return args, B("ok")
+	})
+	RegisterImpl("C01.nesting", func(args [][]byte) ([][]byte, []byte) {
+		if gmsl.VerifJSONNestingExceeds(args[0], gmsl.VerifMaxJSONDepth) {
+			return args, B("exceeds")
+		}
+		return args, B("within")
+	})
+	RegisterImpl("C01.nesting_lim", func(args [][]byte) ([][]byte, []byte) {
+		l, _ := strconv.Atoi(string(args[1]))
+		if gmsl.VerifJSONNestingExceeds(args[0], l) {
+			return args, B("exceeds")
+		}
+		return args, B("within")
+	})
 	RegisterProp("C01", genC01)
 }
 
@@ -650,8 +676,8 @@ func genC01(c *Ctx) {
 	for _, t := range fixed {
 		one(t, "fixed")
 		c.Run("C01.valid", Args(t), "C01.valid", "", "fixed")
-		c.Run("C01.assume_valid", Args(t), "C01.canonical", "", "fixed")
-		c.Run("C01.compact_sort", Args(t), "C01.canonical", "", "fixed")
+		c.Run("C01.assume_valid", Args(t), "C01.canonical_unguarded", "", "fixed")
+		c.Run("C01.compact_sort", Args(t), "C01.canonical_unguarded", "", "fixed")
 		c.Run("C01.twice", Args(t), "C01.const_same", "", "fixed")
 		c.Run("C01.compact_raw", Args(t), "C01.compact_raw", "C01.prop.compact_safe", "fixed/compact-raw")
 		allVersions(t, "fixed")
@@ -700,10 +726,10 @@ func genC01(c *Ctx) {
 			c.Run("C01.pair", Args(t1, c01text(r, w, 1)), "C01.pair", "C01.prop.unique", "random/perturbed value")
 			c.Count("pairs: perturbed value")
 		}
-		c.Run("C01.assume_valid", Args(t2), "C01.canonical", "", "random/assume-valid")
+		c.Run("C01.assume_valid", Args(t2), "C01.canonical_unguarded", "", "random/assume-valid")
 		c.Run("C01.compact_raw", Args(t1), "C01.compact_raw", "C01.prop.compact_safe", "random/compact-raw")
 		if i%4 == 0 {
-			c.Run("C01.compact_sort", Args(t1), "C01.canonical", "", "random/compact+sort")
+			c.Run("C01.compact_sort", Args(t1), "C01.canonical_unguarded", "", "random/compact+sort")
 			c.Run("C01.twice", Args(t2), "C01.const_same", "", "random/twice")
 			c.Run("C01.valid", Args(t1), "C01.valid", "", "random/valid")
 		}
@@ -853,6 +879,98 @@ func genC01(c *Ctx) {
 			c.Run("C01.enum_compact", Args(alpha, strconv.Itoa(cd-1), string([]byte{a})), "C01.enum_compact", "", "compact-raw/exhaustive")
 		}
 		c.Count(fmt.Sprintf("compact_raw exhaustive: all texts over %d symbols up to length %d", len(alpha), cd))
+	}
+
+	// ---- 4c. the nesting limit (maxJSONDepth = 10000): both sides of it, and what must not count
+	{
+		rep := strings.Repeat
+		// verdicts (accepted / refused) on every text; the bytes of the output as well where [exact]
+		// (the canonical printer of the model is quadratic in the depth: ~2.5 s per 10000 levels)
+		cheapOnly := false // set for texts on which the reference parser is quadratic (nested objects)
+		deep := func(t, tag string, exact bool) {
+			if cheapOnly {
+				c.Run("C01.accepts", Args(t), "C01.accepts", "", "nesting/"+tag)
+				c.Run("C01.nesting", Args(t), "C01.nesting", "", "nesting/"+tag)
+				c.Count("nesting: " + tag)
+				return
+			}
+			c.Run("C01.accepts", Args(t), "C01.accepts", "C01.prop.depth", "nesting/"+tag)
+			c.Run("C01.nesting", Args(t), "C01.nesting", "", "nesting/"+tag)
+			for _, ver := range []string{"1", "10"} {
+				c.Run("C01.enforced_accepts", Args(t, ver), "C01.enforced_accepts", "", "nesting/"+tag)
+			}
+			if exact {
+				c.Run("C01.canonical", Args(t), "C01.canonical", "", "nesting/"+tag+"/bytes")
+			}
+			if exact && c.Thorough() {
+				c.Run("C01.enforced", Args(t, "10"), "C01.enforced", "", "nesting/"+tag+"/bytes")
+				one(t, "nesting/"+tag)
+				c.Run("C01.assume_valid", Args(t), "C01.canonical_unguarded", "", "nesting/"+tag+"/assume-valid")
+			}
+			c.Count("nesting: " + tag)
+		}
+		th := c.Thorough()
+		for _, n := range []int{9999, 10000, 10001, 20000} {
+			tag := fmt.Sprintf("depth %d", n)
+			deep(rep("[", n)+"1"+rep("]", n), tag+" arrays", n == 10000 || n == 10001 || th)
+			if n >= 10000 || th {
+				// (the reference parser is quadratic on nested objects: ~2.5 s per text of 10000 levels,
+				// four times that at 20000: verdict only in the quick tier and at 20000)
+				cheapOnly = !th || n > 10001
+				deep(rep(`{"":`, n)+"1"+rep("}", n), tag+" objects", false)
+				cheapOnly = false
+			}
+			if n == 10000 || n == 10001 || th {
+				cheapOnly = n > 10001 || (n > 10000 && !th)
+				deep(rep(`[{"":`, n/2)+rep("[", n%2)+`"x"`+rep("]", n%2)+rep("}]", n/2), tag+" mixed", false)
+				cheapOnly = false
+			}
+		}
+		// the innermost empty container counts as a level
+		deep(rep("[", 9999)+"[]"+rep("]", 9999), "depth 10000 with empty innermost array", th)
+		deep(rep("[", 10000)+"{}"+rep("]", 10000), "depth 10001 with empty innermost object", true)
+		deep(rep("[ ", 10000)+"-0"+rep(" ]", 10000), "depth 10000 with whitespace", th)
+		deep(rep("[ ", 10001)+"-0"+rep("\n]", 10001), "depth 10001 with whitespace", true)
+		// the limit is on depth, not on the number of brackets
+		deep("["+rep("[", 6000)+rep("]", 6000)+","+rep("[", 6000)+rep("]", 6000)+","+rep("[]", 6000)[1:11999]+"]", "siblings 6001 deep, 24000 brackets", th)
+		deep(`{"a":`+rep("[", 9999)+rep("]", 9999)+`,"b":`+rep("[", 9998)+"0"+rep("]", 9998)+`}`, "object with two deep members, 10000", th)
+		deep(`{"a":`+rep("[", 9999)+rep("]", 9999)+`,"b":`+rep("[", 10000)+rep("]", 10000)+`}`, "object with second member too deep, 10001", true)
+		deep("["+rep("{},", 10001)+"{}]", "10002 sibling objects, depth 2", true)
+		deep(`{"a":[`+rep("[],", 10001)+`[]],"b":[[[]]]}`, "10002 sibling arrays, depth 4", true)
+		// an enforcing version: too deep and an unsafe number, within the limit and an unsafe number
+		deep(rep("[", 10001)+"1.5"+rep("]", 10001), "depth 10001 and a fraction", true)
+		deep(rep("[", 10000)+"1.5"+rep("]", 10000), "depth 10000 and a fraction", false)
+		// brackets inside strings, after an escaped quote, and after an escaped backslash
+		deep(`["`+rep("[", 20000)+`"]`, "brackets in a string", true)
+		deep(`{"`+rep("{[", 10000)+`":"`+rep("]}", 10000)+`"}`, "brackets in key and value strings", true)
+		deep(`["\"`+rep("[{", 10000)+`"]`, "brackets after an escaped quote stay in the string", true)
+		deep(`["\\",`+rep("[", 9999)+rep("]", 9999)+`]`, "escaped backslash closes the string: 10000", th)
+		deep(`["\\",`+rep("[", 10000)+rep("]", 10000)+`]`, "escaped backslash closes the string: 10001", true)
+		deep(`["\u005b`+rep(`\u005b\u007B`, 7000)+`"]`, "escaped brackets", true)
+		// not JSON, scanned all the same: closers first, unbalanced, unterminated
+		for _, t := range []string{rep("]", 20000) + rep("[", 20000), rep("]", 5) + rep("[", 10005), rep("]", 5) + rep("[", 10006), rep("}", 3) + rep("{", 10003) + rep("}", 10000),
+			rep("[", 10000), rep("[", 10001), rep("[", 10001) + `"`, `"` + rep("[", 10001), `"\`, `"\"` + rep("[", 10001), `"\\"` + rep("[", 10001), rep("[", 10000) + `"[`, rep("[", 10000) + `"\"[`, rep("[", 10000) + `"\\"[`,
+			rep("[", 10000) + "]" + "[", rep("[", 10000) + "][[", rep("{", 10000) + "[", rep("[", 5000) + rep("{", 5000) + "[", rep("[", 10001) + rep("]", 10001) + "x", "x" + rep("[", 10001) + rep("]", 10001), rep("[1,", 10001)} {
+			c.Run("C01.nesting", Args(t), "C01.nesting", "", "nesting/not-json")
+			c.Run("C01.canonical", Args(t), "C01.canonical", "C01.prop.same_value", "nesting/not-json")
+			c.Run("C01.enforced", Args(t, "10"), "C01.enforced", "", "nesting/not-json")
+			c.Count("nesting: not JSON, scanned all the same")
+		}
+		// the scan with small limits on arbitrary short texts (every comparison and transition)
+		al := []byte(`[]{}"\\ a,:1`)
+		for i := 0; i < c.Scale(3000, 30000); i++ {
+			l := r.Intn(14)
+			m := make([]byte, l)
+			for k := range m {
+				m[k] = al[r.Intn(len(al))]
+			}
+			lim := strconv.Itoa(r.Intn(5) - 1)
+			c.Run("C01.nesting_lim", [][]byte{m, B(lim)}, "C01.nesting_lim", "", "nesting/small-limit")
+		}
+		c.Count("nesting: random short texts, limits -1..3")
+		for _, t := range fixed {
+			c.Run("C01.nesting_lim", Args(t, "1"), "C01.nesting_lim", "", "nesting/fixed-limit-1")
+		}
 	}
 
 	// ---- 5. bounded-exhaustive: all texts over the alphabet up to length N
